@@ -35,7 +35,7 @@ def shards(tier):
 
 def required_counters(tier):
     return {'judged:operator-consistency': 200, 'judged:construction': 200, 'judged:mask-placement': 100, 'judged:commute-rotate': 50,
-            'judged:commute-to_sky': 50, 'judged:commute-to_sky-membership': 500, 'judged:annulus-membership': 100, 'judged:annulus-area': 50,
+            'judged:commute-to_sky': 50, 'judged:commute-to_sky-membership': 500, 'judged:copy-operator': 200, 'judged:annulus-membership': 100, 'judged:annulus-area': 50,
             'monitor:contains:CompoundPixelRegion': 100, 'monitor:to_mask:CompoundPixelRegion:center': 50, 'judged:sky-compound-contains': 20, 'history-steps': 30,
             'unprojectable-sky-positions': 50, 'sky-annulus-cases': 20, 'sky-compounds-of-mixed-frames': 20, 'rotations-about-an-operand-centre': 20}
 
@@ -118,6 +118,7 @@ NPOP = {operator.and_: np.logical_and, operator.or_: np.logical_or, operator.xor
 
 
 _GIVEN_META = {}
+_BUILD_N = [0]
 
 
 def build_with_operators(spec):
@@ -134,7 +135,22 @@ def build_with_operators(spec):
     b = sub(spec['p']['region2'])
     op = spec['p']['operator']
     if op in ('and', 'or', 'xor'):
-        c = {'and': lambda: a & b, 'or': lambda: a | b, 'xor': lambda: a ^ b}[op]()
+        _BUILD_N[0] += 1
+        form = _BUILD_N[0] % 5
+        if form == 1:
+            # accumulated with the augmented operators (r &= b, r |= b, r ^= b): the name is rebound to the compound of the two
+            c = a
+            if op == 'and':
+                c &= b
+            elif op == 'or':
+                c |= b
+            else:
+                c ^= b
+        elif form == 2:
+            # ... or with the named methods the operators stand for
+            c = {'and': a.intersection, 'or': a.union, 'xor': a.symmetric_difference}[op](b)
+        else:
+            c = {'and': lambda: a & b, 'or': lambda: a | b, 'xor': lambda: a ^ b}[op]()
     else:
         c = regions.CompoundPixelRegion(a, b, S._OPS[op])          # the operator given as another callable
     if 'meta' in spec:
@@ -340,6 +356,18 @@ def run_case(case, obs):
                               f'the conversion back {bool(backp[i])}; {int(bad_s.sum())} / {int(bad_b.sum())} positions differ')
             else:
                 obs.ok(int(dec.sum()), 'commute-to_sky-membership')
+    # (v) the same two operands under another operator: copy(operator=...) is the compound of them under THAT operator
+    others = [o for o in ('and', 'or', 'xor') if OPS[o] is not comp.operator]
+    other = others[case['rs'] % len(others)]
+    c2 = comp.copy(operator=OPS[other])
+    obs.check(c2.operator is OPS[other] and c2.region1 == comp.region1 and c2.region2 == comp.region2, 'copy-with-operator-wrong',
+              f'{opname}: copy(operator={other}) holds operator {getattr(c2.operator, "__name__", c2.operator)!r}', 'copy-operator')
+    r2 = np.asarray(c2.contains(pc))
+    e2 = S.op_logic(OPS[other])(np.asarray(c2.region1.contains(pc)), np.asarray(c2.region2.contains(pc)))
+    if not dict.get(c2.meta, 'include', True):
+        e2 = np.logical_not(e2)
+    obs.check(bool(np.array_equal(r2, np.broadcast_to(e2, r2.shape))), 'compound-membership-not-operator-of-operands',
+              f'{opname}: after copy(operator={other}) contains is not {other} of the operands\' answers', 'copy-operator')
     obs.check(S.fingerprint(comp) == fp0, 'compound-operation-mutates', 'compound changed during the case', 'construction')
 
 
